@@ -235,7 +235,84 @@ u.extract(F, 'impl FunctionCompiler<\'_>::fn compile_stmt', key='quick_assign_st
         frame(old(self).builder, final(self).builder, dest, tsize(*dest_ty.0) as int),
 ''')
 
+# ---- nil values (create_nil_value) and the nil branch of the optional -> optional cast ----------
+CV = 'crates/codegen/src/convert.rs'
+u.extract(CV, 'enum FinalTy', keep_derives={'Clone', 'Copy'})
+u.extract(CV, 'struct NumberType', keep_derives={'Clone', 'Copy'})
+u.raw("""
+pub uninterp spec fn tfinal(ty: Ty) -> FinalTy;
+pub open spec fn final_bytes(f: FinalTy) -> int {
+    match f { FinalTy::Number(nt) => nt.ty.bits_ as int / 8, FinalTy::Pointer(t) => t.bits_ as int / 8, _ => 0 }
+}
+/// ASSUMED path condition: the machine type of a pointer-like payload is as wide as its layout
+pub open spec fn ptr_payload_ok(opt: Ty) -> bool {
+    match spec_abs(opt) {
+        Ty::Optional { sub_ty } => is_ptr(*sub_ty.0) ==> (tfinal(*sub_ty.0) is Number || tfinal(*sub_ty.0) is Pointer)
+            && !(tfinal(*sub_ty.0) is Number && tfinal(*sub_ty.0)->Number_0.ty.is_float)
+            && !(tfinal(*sub_ty.0) is Pointer && tfinal(*sub_ty.0)->Pointer_0.is_float)
+            && final_bytes(tfinal(*sub_ty.0)) == tsize(*sub_ty.0) && entry_ok(opt) && entry_ok(*sub_ty.0),
+        _ => true,
+    }
+}
+impl Intern<Ty> {
+    // `GetFinalTy::get_final_ty`: a table read
+    #[verifier::external_body]
+    pub fn get_final_ty(&self) -> (r: FinalTy) ensures r == tfinal(*self.0) { unimplemented!() }
+}
+pub fn verus_assert(b: bool) requires b {}
+#[verifier::external_body]
+pub fn proved_unreachable<T>() -> (r: T) requires false { unimplemented!() }
+""")
+u.extract(CV, 'impl FinalTy::fn into_real_type', wrap=('impl FinalTy {', '}'), contract="""
+    ensures self is Number ==> res == Some(self->Number_0.ty), self is Pointer ==> res == Some(self->Pointer_0),
+        !(self is Number) && !(self is Pointer) ==> res is None
+""")
+UNREACH_NIL = Rewrite('R6', r'unreachable!\("the type of nil should be an optional"\);', 'return proved_unreachable();', count=1,
+                      why='`unreachable!` -> a call whose precondition is `false`: PROVED unreachable')
+ASSERTS = Rewrite('R6', r'assert!\(([^;]*?)\);', r'verus_assert(\1);', count=None, why='`assert!` -> a call whose precondition is the asserted condition: PROVED not to fire')
+EXPECT = Rewrite('R6', r'\.expect\("[^"]*"\)', '.unwrap()', count=None, why='`.expect(msg)` -> `.unwrap()`: message dropped, the Option must be PROVED to be Some')
+C_NIL = """
+    requires
+        *option_ty.0 is Optional, entry_ok(*option_ty.0), ptr_payload_ok(*option_ty.0),
+        memory is Some ==> loc_wf(memory->0),
+    ensures
+        // a nil is written inside the optional it is a value of, and nowhere else
+        memory is Some ==> frame(*old(builder), *final(builder), memory->0, tsize(*option_ty.0) as int),
+        memory is None && !has_enum_layout(*option_ty.0) ==> no_new_writes(*old(builder), *final(builder)),
+        memory is None && has_enum_layout(*option_ty.0) ==> res.den@ is Addr && ptr_off(res) == 0
+            && fresh_slot(*old(builder), *final(builder), ptr_base(res), tsize(*option_ty.0) as int)
+            && frame_at(*old(builder), *final(builder), ptr_base(res), 0, tsize(*option_ty.0) as int),
+"""
+NIL_TAIL = Rewrite('R8', r'\n(\s*)memory\.into_value\(builder, ptr_ty\)\n', r"\n\1let ghost mid = *builder; let res_tail = memory.into_value(builder, ptr_ty); proof { lemma_frame_intro(old(builder).log@, mid.log@, loc_base(memory), loc_off(memory), loc_off(memory) + tsize(*option_ty.0)); lemma_quiet_any(builder.log@, mid.log@.len() as int, loc_base(memory), loc_off(memory), loc_off(memory) + tsize(*option_ty.0)); lemma_frame_trans(old(builder).log@, mid.log@, builder.log@, loc_base(memory), loc_off(memory), loc_off(memory) + tsize(*option_ty.0)); } res_tail\n",
+                   count=1, why='the tail expression is bound to a name so that the proof block can follow it')
+u.extract(M, 'fn create_nil_value', rewrites=[UNREACH_NIL, ASSERTS, EXPECT, NIL_TAIL], contract=C_NIL,
+          inserts=[('\n        nil\n', 'before', """
+        proof {
+            if memory is Some {
+                lemma_frame_intro(old(builder).log@, builder.log@, loc_base(memory->0), loc_off(memory->0), loc_off(memory->0) + tsize(*option_ty.0));
+            } else {
+                lemma_quiet_intro(old(builder).log@, builder.log@);
+            }
+        }
+""")])
+u.extract(M, 'fn cast_into_memory', key='opt_to_opt_nil',
+          lift=dict(start_after='|builder, _func_writer| ', end_before=',\n                cast_to.get_final_ty().into_real_type(),',
+                    sig="""fn opt_to_opt_nil(builder: &mut FunctionBuilder, ptr_ty: types::Type, cast_from: Intern<Ty>, cast_to: Intern<Ty>,
+                          memory: Option<MemoryLoc>) -> (res: Option<Value>)""",
+                    why='the body of the `map_nil` closure of the `optional -> optional` arm of cast_into_memory lifted into a function; assumed path condition: both types are optionals, memory is the destination'),
+          contract="""
+    requires
+        *cast_from.0 is Optional, *cast_to.0 is Optional, entry_ok(*cast_from.0), entry_ok(*cast_to.0),
+        ptr_payload_ok(*cast_from.0), ptr_payload_ok(*cast_to.0),
+        memory is Some ==> loc_wf(memory->0),
+    ensures
+        // the nil of the DESTINATION optional: only bytes of the destination are written
+        memory is Some ==> frame(*old(builder), *final(builder), memory->0, tsize(*cast_to.0) as int),
+""")
+
 MUTANTS = [
+    (M, '|builder, _func_writer| Some(create_nil_value(builder, ptr_ty, cast_to, memory)),', '|builder, _func_writer| Some(create_nil_value(builder, ptr_ty, cast_from, memory)),', 'violation'),
+    (M, 'memory.write_val(builder, zero, opt_layout.discriminant_offset() as i32);', 'memory.write_val(builder, zero, opt_layout.discriminant_offset() as i32 + 1);', 'violation'),
     # the three C02 defects repaired by "fix:" commits, re-introduced
     (M, 'let discrim = builder.ins().iconst(types::I8, *discriminant as i64);', 'let discrim = builder.ins().iconst(ptr_ty, *discriminant as i64);', 'violation'),
     (M, '                    let size = ty.size();\n                    let align = if size % ty.align() == 0 {', '                    let size = ty.stride();\n                    let align = if size % ty.align() == 0 {', 'violation'),
